@@ -2,6 +2,7 @@ import Tibc.World
 import Tibc.LC.Tendermint
 import Tibc.LC.Status
 import Tibc.Commitment.Verify
+import Tibc.LC.Bsc
 /-
   Line-protocol driver: reads one operation per line on stdin, runs the model, prints one
   canonical outcome line per operation. Core Lean only.
@@ -155,6 +156,50 @@ structure St where
   w : World := World.init
   u : Univ := {}
   tm : String → Option TM.Client := fun _ => none
+  bsc : String → Option (BSC.Client × List Nat) := fun _ => none
+
+namespace BSCD
+open BSC
+
+def parseNats (tok : String) : Option (List Nat) :=
+  if tok == "-" then some [] else (tok.splitOn ",").mapM (fun x => x.toNat?)
+
+def parseHdr (tok : String) : Option Hdr :=
+  match tok.splitOn ";" with
+  | [number, parent, hash, coinbase, signer, diff, gasLimit, gasUsed, time, root, vals, rem, vanity, sealB, mix, uncle] => do
+    let number ← number.toNat?
+    let coinbase ← coinbase.toNat?
+    let signer : Option Nat ← (if signer == "-" then some none else signer.toNat?.map some)
+    let diff ← diff.toNat?
+    let gasLimit ← gasLimit.toNat?
+    let gasUsed ← gasUsed.toNat?
+    let time ← time.toNat?
+    let vals ← parseNats vals
+    let rem ← rem.toNat?
+    pure { number := number, parent := parent, hash := hash, coinbase := coinbase, signer := signer, difficulty := diff,
+           gasLimit := gasLimit, gasUsed := gasUsed, time := time, root := root, extraVals := vals, extraRem := rem,
+           vanityOk := vanity == "1", sealOk := sealB == "1", mixZero := mix == "1", uncleOk := uncle == "1" }
+  | _ => none
+
+def parseRecs (tok : String) : Option (List (Nat × Nat)) :=
+  if tok == "-" then some [] else
+  (tok.splitOn ",").mapM (fun x => match x.splitOn ":" with
+    | [n, a] => do let n ← n.toNat?; let a ← a.toNat?; pure (n, a)
+    | _ => none)
+
+def natsStr (xs : List Nat) : String := if xs.isEmpty then "-" else ",".intercalate (xs.map toString)
+
+def insertRec (e : Nat × Nat) : List (Nat × Nat) → List (Nat × Nat)
+  | [] => [e]
+  | x :: rest => if e.1 ≤ x.1 then e :: x :: rest else x :: insertRec e rest
+
+def dump (c : BSC.Client) (heights : List Nat) : String :=
+  let rs := (c.recents.foldr insertRec []).map (fun e => s!"{e.1}:{e.2}")
+  let cs := heights.filterMap (fun h => (c.cons h).map (fun k => s!"{h}:{k.time}:{k.number}:{k.root}"))
+  let dash := fun (l : List String) => if l.isEmpty then "-" else ",".intercalate l
+  s!"latest={c.latest.number}:{c.latest.hash} vals={natsStr c.validators} recents={dash rs} pending={natsStr c.pending} cons={dash cs}"
+
+end BSCD
 
 namespace TMD
 open TM
@@ -391,6 +436,20 @@ def stepLine (st : St) (line : String) : St × String :=
       let t : Option Nat := if ts == "-" then none else ts.toNat?
       let r := if kind == "tm" then LCStatus.tm t pd now else LCStatus.eth t pd now
       (st, "res=" ++ (match r with | .active => "Active" | .expired => "Expired" | .unknown => "Unknown"))
+    | _, _ => bad
+  | ["bsc.create", name, epoch, hdr, vals, recs] =>
+    match epoch.toNat?, BSCD.parseHdr hdr, BSCD.parseNats vals, BSCD.parseRecs recs with
+    | some epoch, some h, some vals, some recs =>
+      let c : BSC.Client := { epoch := epoch, latest := h, validators := vals, recents := recs, pending := h.extraVals,
+                              cons := fun n => if n == h.number then some ⟨h.time, h.number, h.root⟩ else none }
+      ({ st with bsc := upd st.bsc name (some (c, [h.number])) }, s!"res=ok | {BSCD.dump c [h.number]}")
+    | _, _, _, _ => bad
+  | ["bsc.update", name, hdr] =>
+    match st.bsc name, BSCD.parseHdr hdr with
+    | some (c, hs), some h =>
+      match BSC.checkHeaderAndUpdate c h with
+      | some c' => ({ st with bsc := upd st.bsc name (some (c', hs ++ [h.number])) }, s!"res=ok | {BSCD.dump c' (hs ++ [h.number])}")
+      | none => (st, s!"res=fail | {BSCD.dump c hs}")
     | _, _ => bad
   | ["tmverify", latest, h, root, pt, delay, now, ptok, path, value] =>
     match latest.toNat?, h.toNat?, delay.toNat?, now.toNat? with
